@@ -97,10 +97,24 @@ class CoqResult:
         self.checker_cmd = ''
 
 
+COQPROJECT_HEAD = ('-Q theories Verif\n'
+                   '-arg -w -arg -notation-overridden,-deprecated-hint-without-locality,-deprecated-instance-without-locality\n')
+
+
 def _ensure_makefile() -> None:
-    mk = os.path.join(COQ, 'Makefile')
+    """_CoqProject lists every .v under coq/theories (sorted); it and the Makefile are rewritten only when the set changes."""
+    files = []
+    for root, _, names in os.walk(os.path.join(COQ, 'theories')):
+        for n in names:
+            if n.endswith('.v') and not n.startswith('.'):
+                files.append(os.path.relpath(os.path.join(root, n), COQ))
+    text = COQPROJECT_HEAD + '\n'.join(sorted(files)) + '\n'
     proj = os.path.join(COQ, '_CoqProject')
-    if not os.path.exists(mk) or os.path.getmtime(mk) < os.path.getmtime(proj):
+    mk = os.path.join(COQ, 'Makefile')
+    old = open(proj).read() if os.path.exists(proj) else ''
+    if old != text or not os.path.exists(mk):
+        with open(proj, 'w') as f:
+            f.write(text)
         run(['coq_makefile', '-f', '_CoqProject', '-o', 'Makefile'], cwd=COQ, timeout=60)
 
 
